@@ -1,0 +1,6 @@
+//go:build !verif
+
+package simhook
+
+// NextID reports that no simulated identifier source is installed.
+func NextID() (string, bool) { return "", false }
